@@ -1,9 +1,13 @@
-use crate::{LonelyBlockHash, UnverifiedBlock};
+use crate::{LonelyBlockHash, UnverifiedBlock, delete_unverified_block};
 use ckb_channel::{Receiver, Sender};
-use ckb_logger::{debug, info};
+use ckb_error::InternalErrorKind;
+use ckb_logger::{debug, info, warn};
 use ckb_shared::Shared;
+use ckb_shared::block_status::BlockStatus;
 use ckb_store::ChainStore;
+use ckb_types::packed::Byte32;
 use crossbeam::select;
+use dashmap::DashSet;
 use std::sync::Arc;
 
 pub(crate) struct PreloadUnverifiedBlocksChannel {
@@ -11,6 +15,8 @@ pub(crate) struct PreloadUnverifiedBlocksChannel {
     preload_unverified_rx: Receiver<LonelyBlockHash>,
 
     unverified_block_tx: Sender<UnverifiedBlock>,
+
+    is_pending_verify: Arc<DashSet<Byte32>>,
 
     stop_rx: Receiver<()>,
 }
@@ -20,12 +26,14 @@ impl PreloadUnverifiedBlocksChannel {
         shared: Shared,
         preload_unverified_rx: Receiver<LonelyBlockHash>,
         unverified_block_tx: Sender<UnverifiedBlock>,
+        is_pending_verify: Arc<DashSet<Byte32>>,
         stop_rx: Receiver<()>,
     ) -> Self {
         PreloadUnverifiedBlocksChannel {
             shared,
             preload_unverified_rx,
             unverified_block_tx,
+            is_pending_verify,
             stop_rx,
         }
     }
@@ -53,7 +61,11 @@ impl PreloadUnverifiedBlocksChannel {
     fn preload_unverified_channel(&self, task: LonelyBlockHash) {
         let block_number = task.block_number_and_hash.number();
         let block_hash = task.block_number_and_hash.hash();
-        let unverified_block: UnverifiedBlock = self.load_full_unverified_block_by_hash(task);
+        let unverified_block: UnverifiedBlock = match self.load_full_unverified_block_by_hash(task)
+        {
+            Some(unverified_block) => unverified_block,
+            None => return,
+        };
 
         if let Some(metrics) = ckb_metrics::handle() {
             metrics
@@ -70,36 +82,63 @@ impl PreloadUnverifiedBlocksChannel {
         }
     }
 
-    fn load_full_unverified_block_by_hash(&self, task: LonelyBlockHash) -> UnverifiedBlock {
+    /// Loads the block and its parent header for the verifier.
+    ///
+    /// Returns `None` when either is gone: between queueing and loading, the verifier may have
+    /// rejected (and deleted) the parent, or an earlier copy of this very block. The block cannot
+    /// be valid then; its submitter is told so and the queue moves on.
+    fn load_full_unverified_block_by_hash(&self, task: LonelyBlockHash) -> Option<UnverifiedBlock> {
         let _trace_timecost = ckb_metrics::handle()
             .map(|metrics| metrics.ckb_chain_load_full_unverified_block.start_timer());
 
+        let block_hash = task.block_number_and_hash.hash();
+        let block_number = task.block_number_and_hash.number();
+        let parent_hash = task.parent_hash.clone();
+
+        let loaded = self.shared.store().get_block(&block_hash).and_then(|block| {
+            self.shared
+                .store()
+                .get_block_header(&parent_hash)
+                .map(|parent_header| (block, parent_header))
+        });
+
+        let Some((block_view, parent_header)) = loaded else {
+            warn!(
+                "unverified block {}-{} or its parent {} was removed before it could be verified",
+                block_number, block_hash, parent_hash
+            );
+            delete_unverified_block(
+                self.shared.store(),
+                block_hash.clone(),
+                block_number,
+                parent_hash.clone(),
+            );
+            self.shared
+                .insert_block_status(block_hash.clone(), BlockStatus::BLOCK_INVALID);
+            self.is_pending_verify.remove(&block_hash);
+            let err = InternalErrorKind::Other
+                .other(format!(
+                    "block {}-{} or its parent {} was rejected before this block could be verified",
+                    block_number, block_hash, parent_hash
+                ))
+                .into();
+            task.execute_callback(Err(err));
+            return None;
+        };
+
         let LonelyBlockHash {
-            block_number_and_hash,
-            parent_hash,
+            block_number_and_hash: _,
+            parent_hash: _,
             epoch_number: _epoch_number,
             switch,
             verify_callback,
         } = task;
 
-        let block_view = self
-            .shared
-            .store()
-            .get_block(&block_number_and_hash.hash())
-            .expect("block stored");
-        let block = Arc::new(block_view);
-        let parent_header = {
-            self.shared
-                .store()
-                .get_block_header(&parent_hash)
-                .expect("parent header stored")
-        };
-
-        UnverifiedBlock {
-            block,
+        Some(UnverifiedBlock {
+            block: Arc::new(block_view),
             switch,
             verify_callback,
             parent_header,
-        }
+        })
     }
 }
